@@ -122,8 +122,12 @@ static void one_loop(void)
 static void xadd(int e)
 {
 	struct timeval tv = { 0, 5000 };
+	/* event_add on an event that is active but not inserted leaves its I/O part unregistered
+	 * (DESIGN Appendix A, C02 reading): the model follows that */
+	int only_active = (ev[e].ev_flags & (EVLIST_ACTIVE | EVLIST_ACTIVE_LATER)) && !(ev[e].ev_flags & EVLIST_INSERTED);
 	if (event_add(&ev[e], e == T0 ? &tv : NULL) != 0) FAIL(K("add-failed"), "event_add(%s) failed (%s)", ename[e], bk_last_warning);
-	added[e] = 1;
+	added[e] = (e == T0 || e == S0) ? 1 : !only_active;
+	if (only_active) LOG("(add of active %s ignored) ", ename[e]);
 }
 static void xdel(int e)
 {
